@@ -26,8 +26,8 @@ const (
 )
 
 type c16Plugin struct {
-	cfgOK  atomic.Int32
-	synced atomic.Int32
+	cfgOK    atomic.Int32
+	synced   atomic.Int32
 	mu       sync.Mutex
 	events   []string
 	lastSync string
